@@ -1,6 +1,6 @@
 (* C08 - Presolve verdicts are true; postsolve maps optimal solutions to optimal ones.
 
-   What is proved here (statements only; proofs in Postsolve_Proofs RowSingleton_Proofs.v): for the post-solve steps of SPxMainSM, modelled in
+   What is proved here (statements only; proofs in Postsolve_Proofs RowSingleton_Proofs FreeColSingleton_Proofs.v): for the post-solve steps of SPxMainSM, modelled in
    PostsolveModel.v case split by case split (the model is replayed against `PostStep::execute` on every run of the
    check), and for LPs / vectors of EVERY dimension:
      - identities:   if  s = A'x  and  r = c' - A'^T y  hold for the LP after the reduction, then after `execute` they hold
@@ -14,7 +14,7 @@
    The simplifier works in minimisation form; comparisons are the exact instance of the model (`exact_cmps`) wherever a
    theorem depends on them, most statements hold for every comparison record `c`. *)
 From Coq Require Import QArith Qabs List Bool Lia.
-From SV Require Import Vec LP Cert Cert_Proofs PostsolveModel Postsolve_Proofs RowSingleton_Proofs.
+From SV Require Import Vec LP Cert Cert_Proofs PostsolveModel Postsolve_Proofs RowSingleton_Proofs FreeColSingleton_Proofs.
 Import ListNotations.
 Local Open Scope Q_scope.
 
@@ -162,6 +162,33 @@ Example C08_RowSingleton_example :
   let t' := exec_RowSingleton (exact_cmps (inject_Z (10 ^ 100))) 1 1 1 (-(inject_Z (10 ^ 100))) 6 2 (sp_col P 1) 0 (inject_Z (10 ^ 100)) 0 t in
   prim_ident_b (red_remove_row P 1) t && dual_ident_b (red_remove_row P 1) t && prim_ident_b P t' && dual_ident_b P t'
   && vstat_eqb (grs t' 1) BASIC = true.
+Proof. vm_compute. reflexivity. Qed.
+
+(* FreeColSingletonPS: column j occurs in row i only (a_ij <> 0) and was free: row i and column j were removed and the
+   cost of x_j moved onto the other columns of the row, c_k - (c_j / a_ij) a_ik.  With the row and the column put back
+   (x_j from the row's side lRhs, y_i = c_j / a_ij, r_j = 0) both identities hold for the original LP; stated for the
+   exact-comparison instance (the tolerance instance rounds x_j's numerator to 0 below epsilon). *)
+Theorem C08_FreeColSingleton_preserves_identities : forall P i j, wf_lp P -> (i < nrows P)%nat -> (j < ncols P)%nat ->
+  (forall l, l <> i -> coef P l j == 0) -> ~ coef P i j == 0 ->
+  forall inf lRhs onLhs eqCons t,
+  let R := red_FreeColSingleton P i j (c_obj (colj P j) / coef P i j) in
+  prim_ident R t /\ dual_ident R t ->
+  let t' := exec_FreeColSingleton (exact_cmps inf) j i (ncols P - 1) (nrows P - 1) (c_obj (colj P j)) lRhs onLhs eqCons (sp_row P i) t in
+  prim_ident P t' /\ dual_ident P t'.
+Proof. exact FreeColSingleton_identities. Qed.
+Print Assumptions C08_FreeColSingleton_preserves_identities.
+
+(* non-vacuity: min x0 + 2 x1 + 3 x2, row 0: x0 + x1 >= 1, row 1: x1 + 2 x2 = 4 with x2 free, a singleton in row 1.
+   Reduced LP: min x0 + 1/2 x1, row 0 only; its solution x = (1, 0), y = (1), r = (0, -1/2) is restored to x2 = 2, y1 = 3/2 *)
+Example C08_FreeColSingleton_example :
+  let P := {| maximize := false; offset := 0;
+              cols := [{| c_obj := 1; c_lo := Some 0; c_up := None |}; {| c_obj := 2; c_lo := Some 0; c_up := None |};
+                       {| c_obj := 3; c_lo := None; c_up := None |}];
+              rows := [{| r_lhs := Some 1; r_coef := [1; 1; 0]; r_rhs := None |}; {| r_lhs := Some 4; r_coef := [0; 1; 2]; r_rhs := Some 4 |}] |} in
+  let R := red_FreeColSingleton P 1 2 (3 / 2) in
+  let t := mkst [1; 0] [1] [1] [0; -(1 # 2)] [BASIC; ON_LOWER] [ON_LOWER] in
+  let t' := exec_FreeColSingleton (exact_cmps (inject_Z (10 ^ 100))) 2 1 2 1 3 4 true true (sp_row P 1) t in
+  prim_ident_b R t && dual_ident_b R t && prim_ident_b P t' && dual_ident_b P t' && Qeq_bool (gx t' 2) 2 && Qeq_bool (gy t' 1) (3 # 2) = true.
 Proof. vm_compute. reflexivity. Qed.
 
 (* ---------------------------------------------------------------------------------------------------------------- *)
